@@ -333,3 +333,117 @@ Proof.
   { cbn [flush_outbound] in H |- *. rewrite Eq in H. rewrite (pq_no_ping w1 Q1), upd_sess_id. exact H. }
   cbn [fst]. exact (flush_outbound_wire _ _ _ I1 Q1 H1).
 Qed.
+
+(* ---------------------------------------------------------------- C13: an operation whose future is dropped *)
+(* `total w = wire ++ owed`.  A publish (QoS 1/2), subscribe or unsubscribe dropped at any await point leaves the invariants and
+   the timers in place and either no trace at all (total unchanged: dropped while the queues were still being drained) or the
+   whole request enqueued (total = old total ++ the encoding: dropped after it was retained, whatever part of it was already
+   written); continuing to drain then completes exactly that byte stream (flush_outbound_wire). *)
+Lemma finish_retained_cancel : forall fuel w1 s2 bs o w',
+  WInv (w_sess w1) -> PQ w1 -> next_step (s_ob (w_sess w1)) = None ->
+  sstep (w_sess w1) LOther s2 -> owed (s_ob s2) = owed (s_ob (w_sess w1)) ++ bs ->
+  (forall now, should_queue_pingreq s2 now = should_queue_pingreq (w_sess w1) now) ->
+  finish_mid fuel (upd_sess w1 s2) (MRetained o) = (w', OCancel) ->
+  total w' = w_wire w1 ++ bs /\ WInv (w_sess w') /\ PQ w'.
+Proof.
+  intros fuel w1 s2 bs o w' I Hq Hn Hstep Ho Hk H. cbn [finish_mid] in H. unfold bindu in H.
+  destruct (flush_outbound fuel (upd_sess w1 s2)) as [w3 o3] eqn:Ef. destruct o3 as [u|e| | |]; try discriminate. inversion H; subst w'. clear H.
+  assert (I2 : WInv (w_sess (upd_sess w1 s2))) by (cbn [w_sess upd_sess]; eapply WInv_step; eassumption).
+  destruct (flush_outbound_total _ _ _ _ I2 (PQ_upd_sess _ _ Hk Hq) Ef Logic.I) as [T [I3 [Q3 _]]].
+  split; [|split; assumption]. rewrite T. unfold total. cbn [w_wire w_sess upd_sess]. rewrite Ho, (owed_no_step _ Hn). reflexivity.
+Qed.
+
+Theorem op_publish_cancel_safe : forall fuel r w w',
+  WInv (w_sess w) -> PQ w -> op_publish fuel r w = (w', OCancel) ->
+  (exists w1, flush_outbound fuel w = (w1, ODone tt) /\ effective_qos (w_sess w1) (pr_qos r) = Q0) \/
+  (WInv (w_sess w') /\ PQ w' /\
+   (total w' = total w \/
+    exists w1 bs cap off id, flush_outbound fuel w = (w1, ODone tt) /\
+      enc_publish cap (pub_request r (effective_qos (w_sess w1) (pr_qos r)) id) = SOk off bs /\ total w' = total w ++ bs)).
+Proof.
+  intros fuel r w w' I Hq H. unfold op_publish in H. destruct (negb (w_live w)); [discriminate|]. unfold bindu in H.
+  destruct (flush_outbound fuel w) as [w1 o1] eqn:E1. destruct o1 as [u|e| | |]; try discriminate.
+  - destruct u. destruct (flush_outbound_wire _ _ _ I Hq E1) as [Hw1 Hn1].
+    destruct (flush_outbound_total _ _ _ _ I Hq E1 Logic.I) as [_ [I1 [Q1 _]]].
+    destruct (publish_middle (w_sess w1) (w_live w1) r) as [s2 m] eqn:Em.
+    destruct m as [e|o|bs0]; [cbn [finish_mid] in H; discriminate| |].
+    + right. destruct (publish_middle_owed _ _ _ _ _ (proj1 I1) Em) as [bs [cap [off [Hb [Ho Hk]]]]].
+      assert (Hstep : sstep (w_sess w1) LOther s2).
+      { replace s2 with (fst (publish_middle (w_sess w1) (w_live w1) r)) by now rewrite Em. apply SS_publish. }
+      destruct (finish_retained_cancel fuel w1 s2 bs o w' I1 Q1 Hn1 Hstep Ho Hk H) as [T [I' Q']].
+      split; [exact I'|]. split; [exact Q'|]. right. exists w1, bs, cap, off, (op_pid o). split; [reflexivity|]. split; [exact Hb|].
+      rewrite T, Hw1. unfold total. rewrite <- app_assoc. reflexivity.
+    + left. exists w1. split; [reflexivity|]. exact (proj1 (publish_middle_direct _ _ _ _ _ Em)).
+  - right. inversion H; subst w'. destruct (flush_outbound_total _ _ _ _ I Hq E1 Logic.I) as [T [I1 [Q1 _]]].
+    split; [exact I1|]. split; [exact Q1|]. left. exact T.
+Qed.
+
+Theorem op_subscribe_cancel_safe : forall fuel topics ps w w',
+  WInv (w_sess w) -> PQ w -> op_subscribe fuel topics ps w = (w', OCancel) ->
+  WInv (w_sess w') /\ PQ w' /\
+  (total w' = total w \/
+   exists bs cap off id, enc_subscribe cap {| sq_pid := id; sq_props := ps; sq_topics := topics |} = SOk off bs /\ total w' = total w ++ bs).
+Proof.
+  intros fuel topics ps w w' I Hq H. unfold op_subscribe in H. destruct (negb (w_live w)); [discriminate|].
+  destruct topics as [|t0 ts]; [discriminate|]. set (topics := t0 :: ts) in *.
+  destruct (negb (props_valid_for (PSlice ps) CtxSubscribe)); [discriminate|]. unfold bindu in H.
+  destruct (flush_outbound fuel w) as [w1 o1] eqn:E1. destruct o1 as [u|e| | |]; try discriminate.
+  - destruct u. destruct (flush_outbound_wire _ _ _ I Hq E1) as [Hw1 Hn1].
+    destruct (flush_outbound_total _ _ _ _ I Hq E1 Logic.I) as [_ [I1 [Q1 _]]].
+    destruct (subscribe_middle (w_sess w1) topics ps) as [s2 m] eqn:Em.
+    destruct m as [e|o|bs0]; [cbn [finish_mid] in H; discriminate| |].
+    + unfold subscribe_middle in Em.
+      destruct (enqueue_middle_owed _ _ _ _ _ (proj1 I1) (fun id => enc_subscribe_fits {| sq_pid := id; sq_props := ps; sq_topics := topics |}) Em)
+        as [bs [cap [off [Hb [Ho Hr]]]]].
+      assert (Hstep : sstep (w_sess w1) LOther s2).
+      { replace s2 with (fst (subscribe_middle (w_sess w1) topics ps)) by (unfold subscribe_middle; now rewrite Em). apply SS_subscribe. }
+      destruct (finish_retained_cancel fuel w1 s2 bs o w' I1 Q1 Hn1 Hstep Ho Hr H) as [T [I' Q']].
+      split; [exact I'|]. split; [exact Q'|]. right. exists bs, cap, off, (op_pid o). split; [exact Hb|].
+      rewrite T, Hw1. unfold total. rewrite <- app_assoc. reflexivity.
+    + unfold subscribe_middle, enqueue_middle in Em. destruct (retained_full _); [discriminate|]. destruct (next_packet_id _). destruct (encode_at _ _) as [o1 [off len|e]]; [|discriminate].
+      destruct (too_large _ _); [discriminate|]. destruct (retain_packet _ _ _ _); discriminate.
+  - inversion H; subst w'. destruct (flush_outbound_total _ _ _ _ I Hq E1 Logic.I) as [T [I1 [Q1 _]]].
+    split; [exact I1|]. split; [exact Q1|]. left. exact T.
+Qed.
+
+Theorem op_unsubscribe_cancel_safe : forall fuel topics ps w w',
+  WInv (w_sess w) -> PQ w -> op_unsubscribe fuel topics ps w = (w', OCancel) ->
+  WInv (w_sess w') /\ PQ w' /\
+  (total w' = total w \/
+   exists bs cap off id, enc_unsubscribe cap {| uq_pid := id; uq_props := ps; uq_topics := topics |} = SOk off bs /\ total w' = total w ++ bs).
+Proof.
+  intros fuel topics ps w w' I Hq H. unfold op_unsubscribe in H. destruct (negb (w_live w)); [discriminate|].
+  destruct topics as [|t0 ts]; [discriminate|]. set (topics := t0 :: ts) in *.
+  destruct (negb (props_valid_for (PSlice ps) CtxUnsubscribe)); [discriminate|]. unfold bindu in H.
+  destruct (flush_outbound fuel w) as [w1 o1] eqn:E1. destruct o1 as [u|e| | |]; try discriminate.
+  - destruct u. destruct (flush_outbound_wire _ _ _ I Hq E1) as [Hw1 Hn1].
+    destruct (flush_outbound_total _ _ _ _ I Hq E1 Logic.I) as [_ [I1 [Q1 _]]].
+    destruct (unsubscribe_middle (w_sess w1) topics ps) as [s2 m] eqn:Em.
+    destruct m as [e|o|bs0]; [cbn [finish_mid] in H; discriminate| |].
+    + unfold unsubscribe_middle in Em.
+      destruct (enqueue_middle_owed _ _ _ _ _ (proj1 I1) (fun id => enc_unsubscribe_fits {| uq_pid := id; uq_props := ps; uq_topics := topics |}) Em)
+        as [bs [cap [off [Hb [Ho Hr]]]]].
+      assert (Hstep : sstep (w_sess w1) LOther s2).
+      { replace s2 with (fst (unsubscribe_middle (w_sess w1) topics ps)) by (unfold unsubscribe_middle; now rewrite Em). apply SS_unsubscribe. }
+      destruct (finish_retained_cancel fuel w1 s2 bs o w' I1 Q1 Hn1 Hstep Ho Hr H) as [T [I' Q']].
+      split; [exact I'|]. split; [exact Q'|]. right. exists bs, cap, off, (op_pid o). split; [exact Hb|].
+      rewrite T, Hw1. unfold total. rewrite <- app_assoc. reflexivity.
+    + unfold unsubscribe_middle, enqueue_middle in Em. destruct (retained_full _); [discriminate|]. destruct (next_packet_id _). destruct (encode_at _ _) as [o1 [off len|e]]; [|discriminate].
+      destruct (too_large _ _); [discriminate|]. destruct (retain_packet _ _ _ _); discriminate.
+  - inversion H; subst w'. destruct (flush_outbound_total _ _ _ _ I Hq E1 Logic.I) as [T [I1 [Q1 _]]].
+    split; [exact I1|]. split; [exact Q1|]. left. exact T.
+Qed.
+
+(* computed: the publish of `publish_wire_example` with its future dropped inside the n-th transport call *)
+Definition ex_drop (n : nat) : world := upd_script ex_conn (repeat (0, 3) n ++ [(3, 0)]).
+Definition ex_dropped (n : nat) : world := fst (op_publish FUEL ex_pub3 (ex_drop n)).
+Definition ex_resumed (n : nat) : world := fst (flush_outbound FUEL (upd_script (ex_dropped n) [])).
+Example publish_cancel_example :
+  (* dropped while the replay was still being drained: no trace of the request *)
+  snd (op_publish FUEL ex_pub3 (ex_drop 9)) = OCancel /\ total (ex_dropped 9) = total ex_conn /\
+  w_wire (ex_resumed 9) = w_wire ex_conn ++ owed (s_ob (w_sess ex_conn)) /\
+  (* dropped after the request was retained and nine of its ten bytes written: the request survives, whole *)
+  snd (op_publish FUEL ex_pub3 (ex_drop 14)) = OCancel /\
+  total (ex_dropped 14) = total ex_conn ++ [51; 8; 0; 1; 118; 0; 3; 0; 7; 7] /\ owed (s_ob (w_sess (ex_dropped 14))) = [7] /\
+  w_wire (ex_resumed 14) = w_wire ex_conn ++ owed (s_ob (w_sess ex_conn)) ++ [51; 8; 0; 1; 118; 0; 3; 0; 7; 7].
+Proof. vm_compute. repeat split. Qed.
